@@ -438,13 +438,13 @@ impl Property for C03 {
     }
     fn cases(&self, tier: Tier) -> u64 {
         match tier {
-            Tier::Quick => 45_000,
+            Tier::Quick => 120_000,
             Tier::Thorough => 7_200_000,
         }
     }
     fn min_nontrivial(&self, tier: Tier) -> u64 {
         match tier {
-            Tier::Quick => 8_000,
+            Tier::Quick => 20_000,
             Tier::Thorough => 1_200_000,
         }
     }
